@@ -263,6 +263,13 @@ pub fn scenarios(thorough: bool) -> Vec<Scenario> {
             v.push(Scenario { name: format!("n{}/th{}/P2+P2+G/ticks", nodes, threshold), nodes, threshold, producers: vec![(0, vec![p("a1"), p("a2")]), (last, vec![p("b1"), p("b2")])], consumers: vec![(0, 2)], ticks: true });
         }
     }
+    if !thorough {
+        // the quick tier's only three-node scenario: the producer's node, the segment owner
+        // and the Raft leader are three different nodes, so a stale key can be forwarded to an
+        // owner that has already applied the sealing
+        let p = |s: &str| s.to_string();
+        v.insert(0, Scenario { name: "n3/th1/P3@last+G".into(), nodes: 3, threshold: 1, producers: vec![(2, vec![p("a1"), p("a2"), p("a3")])], consumers: vec![(0, 2)], ticks: false });
+    }
     v
 }
 
